@@ -1047,6 +1047,55 @@ func (l *Lowerer) intBV(t *Term) string {
 		}
 		return "(+ (* " + h + " " + m.String() + ") " + lw + ")"
 	case OIte:
+		// conditional correction  ite(K <= X, X-K, X)  ==>  X - K*[K <= X]   (0/1-linear form: congruences modulo a
+		// divisor of K no longer depend on the condition)
+		if l.LinIte {
+			th, el, cd := t.A[1], t.A[2], t.A[0]
+			if th.Op == OSub && th.A[0] == el && th.A[1].IsConst() && (cd.Op == OUle && cd.A[0] == th.A[1] && cd.A[1] == el) {
+				k := th.A[1].ConstBig()
+				c := l.T(cd)
+				y := l.T(el)
+				yl, yh := l.iv(el)
+				if l.hasIv(el) || el.IsConst() {
+					// then-branch: [max(yl,K)-K, yh-K] ; else-branch: [yl, min(yh,K-1)]
+					lo := new(big.Int).Set(yl)
+					if yl.Cmp(k) >= 0 {
+						lo.Sub(yl, k)
+					} else {
+						lo = big.NewInt(0)
+						if yl.Sign() > 0 && yh.Cmp(k) < 0 {
+							lo = yl
+						}
+					}
+					hi := new(big.Int).Sub(yh, k)
+					km1 := new(big.Int).Sub(k, bigOne)
+					eh := yh
+					if km1.Cmp(eh) < 0 {
+						eh = km1
+					}
+					if yl.Cmp(k) >= 0 {
+						// condition always true
+					} else if eh.Cmp(hi) > 0 {
+						hi = eh
+					}
+					if hi.Sign() < 0 {
+						hi = eh
+					}
+					l.setiv(t, lo, hi)
+					e := "(- " + y + " (* " + k.String() + " (ite " + c + " 1 0)))"
+					lf := newLin()
+					lf.addAtom(y, bigOne)
+					b := "(ite " + c + " 1 0)"
+					lf.addAtom(b, new(big.Int).Neg(k))
+					l.linOf[e] = lf
+					l.atomIv[b] = [2]*big.Int{bigZero, bigOne}
+					if _, ok := l.atomIv[y]; !ok {
+						l.atomIv[y] = [2]*big.Int{yl, yh}
+					}
+					return e
+				}
+			}
+		}
 		c := l.T(t.A[0])
 		l.ctx = append(l.ctx, t.A[0])
 		depth := len(l.ctx) - 1
@@ -1060,6 +1109,13 @@ func (l *Lowerer) intBV(t *Term) string {
 		yl, yh := l.iv(t.A[2])
 		if !l.hasIv(t.A[2]) {
 			yl, yh = l.ivUnder(t.A[2])
+		}
+		// else-branch of  ite(K <= X, _, X): X < K
+		if cd := t.A[0]; cd.Op == OUle && cd.A[0].IsConst() && cd.A[1] == t.A[2] {
+			km1 := new(big.Int).Sub(cd.A[0].ConstBig(), bigOne)
+			if km1.Sign() >= 0 && km1.Cmp(yh) < 0 {
+				yh = km1
+			}
 		}
 		l.ctx = l.ctx[:depth]
 		if l.minCtx >= depth {
@@ -1162,7 +1218,11 @@ func termVars(t *Term, seen map[*Term]bool, out map[*Term]bool) {
 }
 
 // coneOfInfluence keeps the assumptions that (transitively) share variables with the goal.
-func coneOfInfluence(assumptions []*Term, goal *Term) []*Term {
+func coneOfInfluence(assumptions []*Term, goal *Term, inputs []InputVar) []*Term {
+	isInput := map[*Term]bool{}
+	for _, iv := range inputs {
+		isInput[iv.Term] = true
+	}
 	if goal == nil {
 		return assumptions
 	}
@@ -1181,12 +1241,23 @@ func coneOfInfluence(assumptions []*Term, goal *Term) []*Term {
 			if in[i] {
 				continue
 			}
+			// An assumption is relevant when it shares an auxiliary (non-input) variable with the cone, or when it
+			// constrains only inputs and at least one of them is in the cone.  Definitions of auxiliary values
+			// (contract stubs) that merely read inputs of the cone are left out.
 			hit := len(avars[i]) == 0
+			onlyInputs, sharesInput := true, false
 			for v := range avars[i] {
-				if vars[v] {
-					hit = true
-					break
+				if !isInput[v] {
+					onlyInputs = false
+					if vars[v] {
+						hit = true
+					}
+				} else if vars[v] {
+					sharesInput = true
 				}
+			}
+			if onlyInputs && sharesInput {
+				hit = true
 			}
 			if hit {
 				in[i] = true
@@ -1211,6 +1282,7 @@ func BuildQuery(ts *TermStore, be Backend, id string, assumptions []*Term, goal 
 	l := NewLowerer(be, ts)
 	l.LoSubst = profile == 1
 	l.CoefReduce = profile == 0
+	l.LinIte = profile == 0
 	l.AddFacts(assumptions)
 	var as []string
 	for _, a := range assumptions {
